@@ -239,17 +239,15 @@ pub fn write_modular_frame(img: &ImageHeader, spec: &ModularFrameSpec) -> Encode
             Some(c) => c.clone(),
             None => write_tree(w, &global_syms),
         };
-        // channel data of the global stream: nothing at all if there are no pixels
-        if !global_syms.is_empty() {
+        // channel data of the global stream.  The symbol reader is initialised (ANS: 32-bit state) even when
+        // no channel is small enough to be coded here; only an empty channel list writes nothing.
+        if !channels.is_empty() {
             code.write_symbols(w, &global_syms);
         }
         for (s, syms) in streams.iter().zip(&stream_syms) {
             if s.parts.is_empty() {
                 continue;
             }
-            let mut tmp = BitWriter::new();
-            let w: &mut BitWriter = if single { &mut tmp } else { &mut BitWriter::new() };
-            let _ = w;
             let mut sw = BitWriter::new();
             let hdr = ModularHeader { use_global_tree: spec.global_tree, wp: spec.wp.clone(), transforms: vec![] };
             hdr.write(&mut sw);
@@ -273,10 +271,17 @@ pub fn write_modular_frame(img: &ImageHeader, spec: &ModularFrameSpec) -> Encode
     // frame header + TOC
     let mut w = BitWriter::new();
     fh.write(&mut w, &spec.sel, img);
+    // spec.toc_perm gives the bitstream order (position i holds logical section order[i]); the coded
+    // permutation maps logical index -> bitstream position, i.e. it is the inverse.
     let (order, perm): (Vec<usize>, Option<Vec<u32>>) = match &spec.toc_perm {
         Some(p) if !single => {
             assert_eq!(p.len(), n_sections);
-            (p.iter().map(|&x| x as usize).collect(), Some(p.clone()))
+            let order: Vec<usize> = p.iter().map(|&x| x as usize).collect();
+            let mut inv = vec![0u32; n_sections];
+            for (pos, &logical) in order.iter().enumerate() {
+                inv[logical] = pos as u32;
+            }
+            (order, Some(inv))
         }
         _ => ((0..n_sections).collect(), None),
     };
